@@ -1,11 +1,23 @@
 CFG = {
     "id": "C03",
-    "level_text": "WORK IN PROGRESS",
-    "level_note": "",
+    "level_text": "Proof over an executable Gallina model of structure/sets/zset (zset.go, skiplist.go; oparry.go/opt.go only store what the model derives) as repaired by fixes 0002-0005, 0007, 0030-0032. Two layers as in the code: the skip list is its level-0 node sequence with oracle heights, forward pointers and spans are derived (level-i successor = next node of height > i, span = level-0 distance) and every search walks those derived chains level by level accumulating spans; the zset layer is dict + list with every public method, its negative-index conversion, clamping and loop bounds. Theorems, for ALL operation lists and ALL height oracles (by induction, no bound): every return value equals the one computed on the reference sorted list (C03_refines, C03_step from any state satisfying the invariant), the representation invariant is preserved (C03_inv: sorted by (score, member), members unique, dict = member->score map, length cached), RevRank = Len-1-Rank, Range/RevRange = the clamped Redis slice and never contain a non-member, score ranges/Count with all bound-exclusivity combinations, removed-element lists, Union = score-summing merge and Inter = score-summing intersection (for every oracle), the span lemmas (a search ends on the threshold position with rank = position; Rank from spans = level-0 position; GetNodeByRank; one Go loop iteration = one derived-chain step; Insert/deleteNode update equations hold between derived spans) and the lanes invariant (every node's height <= highestLevel, highestLevel tight and <= 32). The model is tied to the code on every run: every public method's return value after every step against Spec (kind 2) and Model (kind 1), plus the verif dump of the real skip list (per node score, member, level, per-level successor and stored span, prev; header levels; highestLevel, length, tail) against the pointers and spans derived from the model state (kind 1).",
+    "level_note": "Proved for int members with bcomparator.IntComparator and integer scores (exactly representable float64; IncrBy sums are exact); not parametric in the comparator or the member type. float64 effects (NaN, +-Inf, rounding in IncrBy, scores equal to the header sentinel -MaxFloat64) are not modelled. The model's spans and pointers are derived, not stored: that the code's stored spans equal them is established by the dump comparison on every run (correspondence), not by a theorem; the update equations the code applies are theorems about the derived spans (C03_span_insert, C03_span_delete). SetSafe (zset_safe.go) and the locking of Set (D6, property C11) are outside this check. Heights are injected through fastrand.Uint32 (reassignable package variable) and cross-checked by the node levels in the dump.",
     "harness": "c03",
-    "theorems": [],
-    "trusted": [],
-    "modelled": [],
-    "assumptions": [],
+    "theorems": [("C03.Props", [
+        "C03_refines", "C03_inv", "C03_inv_meaning", "C03_abs", "C03_step", "C03_latest_score", "C03_revrank",
+        "C03_range_slice", "C03_revrange_slice", "C03_range_members", "C03_range_by_score", "C03_revrange_by_score",
+        "C03_count", "C03_remove_range_by_rank", "C03_remove_range_by_score", "C03_union", "C03_inter",
+        "C03_merge_sum_meaning", "C03_inter_sum_meaning", "C03_search_position", "C03_rank_by_spans",
+        "C03_get_node_by_rank", "C03_walk_step", "C03_span_insert", "C03_span_delete", "C03_lanes", "C03_lanes_chain"])],
+    "trusted": [
+        "the abstraction of the Go skip list as (level-0 sequence, heights, highestLevel, length): pointers/spans/prev/tail are derived in the model and compared with the real ones through the verif accessor Set.VerifDump on every mutating step of the small cases and periodically in the large ones",
+        "heights: randomLevel = 1 + number of consecutive zero draws of fastrand.Uint32n(4), capped at 32; the harness injects the draws through fastrand.Uint32 and the dump confirms the node levels",
+        "members are Go ints compared by bcomparator.IntComparator; scores are small integers stored as float64",
+    ],
+    "modelled": ["float64 scores as Z (exact on the harness alphabet)", "Go map dict as an association list",
+                 "unsafe.Pointer/optionalArray storage of next/span (oparry.go) as derived functions of the level-0 sequence",
+                 "the header sentinel (score -MaxFloat64, zero value) as 'below every score / equal to no element'"],
+    "assumptions": ["scores are integers of magnitude < 2^50 (exact float64 arithmetic)", "single-threaded use (locking is C11)"],
     "widen_runs": 1,
+    "widen_timeout": 1200,
 }
